@@ -447,5 +447,38 @@ Proof.
   - destruct (i =? i2)%N; autorewrite with sup; rewrite N.eqb_refl; cbn; intros [Hp|Hp]; discriminate Hp.
   - destruct ready; autorewrite with sup; intros _; left; reflexivity.
 Qed.
+
+(* ---- instances under the events of other threads -------------------------------------------------------------- *)
+Definition imono (x x' : inst) : Prop :=
+  nm x' = nm x /\ l_runctx x' = l_runctx x /\ (l_done x = true -> l_done x' = true) /\
+  (badpc (pc x') = true -> badpc (pc x) = true) /\ (gonepc (pc x) = true -> gonepc (pc x') = true) /\
+  (nl x = true -> nl x' = true).
+
+Lemma imono_core x x' : icore_eq x x' -> imono x x'.
+Proof.
+  intros L. pose proof (nl_core _ _ L) as Hn. destruct L as (En & Ep & Ea & Ee & Ed & Er).
+  unfold imono. rewrite Ep, Hn, Ed. repeat split; auto.
+Qed.
+
+Lemma step_core_inst s th e s' : step_core s th e = Some s' -> own_ev e = false ->
+  forall j x, get j (insts s) = Some x -> exists x', get j (insts s') = Some x' /\ imono x x'.
+Proof.
+  intros H Hev j x Hx. destruct (frame_ev e) eqn:Hf.
+  { destruct (csame_fwd _ _ _ _ (step_core_csame _ _ _ _ Hf H) Hx) as (x' & Hx' & L). eauto using imono_core. }
+  unfold step_core in H. destruct e; try discriminate Hev; try discriminate Hf; kind_cases H.
+  all: unfold set_pc, end_finish; cbn; autorewrite with sup.
+  all: repeat match goal with |- context[if ?b then _ else _] => is_var b; destruct b end; autorewrite with sup.
+  all: try rewrite get_set.
+  all: try match goal with |- context[N.eqb ?a ?b] => destruct (N.eqb_spec a b); [subst b|] end.
+  all: try (exists x; split; [assumption|apply imono_core, icore_eq_refl]).
+  all: try match goal with E : get ?i (insts _) = Some ?y, Hx : get ?i (insts _) = Some ?x |- _ => rewrite E in Hx; injection Hx as <- end.
+  all: try match goal with E : get ?i (insts _) = Some ?y |- _ => rewrite ?E end; cbn.
+  all: try (eexists; split; [reflexivity|]).
+  all: try (unfold imono, nl; cbn;
+            repeat match goal with E : pc _ = _ |- _ => rewrite E; clear E end; cbn; repeat split; auto; discriminate).
+  1:{ exfalso. unfold has in E0. rewrite Hx in E0. discriminate. }
+  all: destruct s1; unfold imono, nl; cbn;
+       repeat match goal with E : pc _ = _ |- _ => rewrite E; clear E end; cbn; repeat split; auto; try discriminate.
+Qed.
 (*STOP*)
 End RelC03.
